@@ -3,6 +3,7 @@ import PflDrv.PDA
 import Pfl.Model.FST
 import Pfl.Oracle.FstRel
 import Pfl.Model.ToFST
+import Pfl.Model.FSTObject
 import PflDrv.FA
 open Lean Pfl
 namespace PflDrv
@@ -22,6 +23,30 @@ def jFST (T : FST String) : Json :=
     ("starts", jList jStr T.starts), ("finals", jList jStr T.finals),
     ("delta", jList (fun t => Json.arr #[jStr t.1, jOpt jStr t.2.1, jStr t.2.2.1, jList jStr t.2.2.2]) T.delta)]
 
+/-- a mutator call of a history on an FST object (`Pfl/Model/FSTObject.lean`) -/
+def asFSTObjOp (j : Json) : R FSTObj.Op := do
+  match ← asArr j with
+  | [k, q, a, r, o] => match ← asStr k with
+    | "add_t" => pure (.addT (← asStr q) (← asOptStr a) (← asStr r) (← asStrList o))
+    | x => throw s!"bad FST object op {x}"
+  | [k, q] => match ← asStr k with
+    | "add_s" => pure (.addStart (← asStr q))
+    | "add_f" => pure (.addFinal (← asStr q))
+    | x => throw s!"bad FST object op {x}"
+  | _ => throw "bad FST object op"
+
+def jFSTObj (o : FSTObj.Obj) : Json :=
+  Json.mkObj [("states", jList jStr o.states), ("inputs", jList jStr o.inputs), ("outputs", jList jStr o.outputs),
+    ("starts", jList jStr o.starts), ("finals", jList jStr o.finals),
+    ("delta", jList (fun (e : FSTObj.Key × List (String × List String)) =>
+      Json.arr #[Json.arr #[jStr e.1.1, jOpt jStr e.1.2],
+        jList (fun (out : String × List String) => Json.arr #[jStr out.1, jList jStr out.2]) e.2]) o.delta),
+    ("num", jNat (FSTObj.numTransitions o.delta))]
+
+def fstObjRun : FSTObj.Obj → List FSTObj.Op → List Json
+  | _, [] => []
+  | o, op :: ops => let o' := FSTObj.step o op; jFSTObj o' :: fstObjRun o' ops
+
 def fstHandle (op : String) (j : Json) : R Json := do
   if op == "fst.ofFA" then   -- model of FiniteAutomaton.to_fst; states are printed as their codes
     let A ← asENFA (← field j "A")
@@ -30,6 +55,9 @@ def fstHandle (op : String) (j : Json) : R Json := do
     return jFST { states := T.states.map toString, inputs := T.inputs, outputs := T.outputs,
                   starts := T.starts.map toString, finals := T.finals.map toString,
                   delta := T.delta.map fun t => (toString t.1, t.2.1, toString t.2.2.1, t.2.2.2) }
+  if op == "fst.objRun" then   -- model of an FST object built through its API (C19)
+    let ops ← (← asArr (← field j "ops")).mapM asFSTObjOp
+    return Json.arr (fstObjRun FSTObj.new ops).toArray
   let T ← asFST (← field j "T")
   match op with
   | "fst.translate" =>
